@@ -31,6 +31,7 @@ CONSTANTS
     UCap, SemCap,     \* remote upgrader: channel capacity and semaphore (10 / 10 in the code)
     Mode,             \* "off" | "local" | "remote"
     UpgradeSend, UpgradeRecheck,
+    UpgraderSem,      \* remote upgrader on a full semaphore: "drop" the request (code) | "block"
     MaxCalls,         \* calls per client
     Kinds,            \* request kinds clients may issue
     InitFiles         \* initial directory
@@ -194,8 +195,9 @@ HooksRecv ==
     /\ notifyQ > 0 /\ notifyQ' = notifyQ - 1
     /\ UNCHANGED <<chans, disp, files, cl, upq, sem, ack, owed>>
 
-UpgraderRecv ==     \* never blocks: starts an upload or drops the request
+UpgraderRecv ==     \* the code never blocks here: it starts an upload or drops the request
     /\ upq # <<>> /\ upq' = Tail(upq)
+    /\ UpgraderSem = "block" => sem < SemCap
     /\ sem' = IF sem < SemCap THEN sem + 1 ELSE sem
     /\ UNCHANGED <<chans, disp, files, cl, notifyQ, ack, owed>>
 
